@@ -167,8 +167,8 @@ def layered(  # pylint: disable=too-many-arguments,too-many-locals,too-many-bran
     for nsubs in range(0, ksubs + 1):
         o = core.Opts(kinds=kinds, cond_level=0, nsubs=nsubs)
         for size in range(1, n2 + 1):
-            if tier != "quick" and size == 4 and nsubs == 0:
-                alpha: Sequence[Atom] = small[:2]
+            if tier != "quick" and size == 4:
+                alpha: Sequence[Atom] = small[:2] if nsubs < 2 else small[:3]
             elif l2_top_alpha is not None and size == n2 and size >= 3:
                 alpha = small[:l2_top_alpha]
             else:
